@@ -77,6 +77,7 @@ type SegStore struct {
 	suffix                uint64
 	lastUpdated           time.Time
 	lastWipFlushTime      time.Time
+	removedAsStale        bool // set, with Lock held, when the stale segstore cleanup removes this segstore from allSegStores
 	VirtualTableName      string
 	RecordCount           int
 	AllSeenColumnSizes    map[string]uint32 // Map of Column to Column Value size. The value is a positive int if the size is consistent across records and -1 if it is not.
